@@ -127,6 +127,8 @@ func drive(prop string, r *rand.Rand, w *writer, n int) {
 		driveDvi(r, w, n)
 	case "C13":
 		driveMag(r, w, n)
+	case "SWEEP":
+		driveSweep(r, w, n)
 	case "C04":
 		driveTree(r, w, n)
 	case "C09":
@@ -228,6 +230,13 @@ func reexec(b []byte, w *writer) {
 		old := e.Probes
 		execMag(r, &e)
 		e.Probes = mergeProbes(e.Probes, old)
+		w.emit(&e)
+	case "Sweep":
+		var e SweepEv
+		if err := json.Unmarshal(b, &e); err != nil {
+			fatal(err)
+		}
+		execSweep(&e)
 		w.emit(&e)
 	case "TreeOp":
 		var e TreeEv
